@@ -10,6 +10,11 @@ CLAIMED = {
          "Firing sequence, store after every firing, final store and counters are compared with REF for hundreds of thousands of generated programs per run, through the GRL parser and through directly built Rule values, via execute_with_callback and execute. Detects fired-although-false, not-fired-although-true and wrong assignment values for the typed core of GRL on the domain where the documentation defines the semantics. No claim beyond the generated sizes; cases REF calls undefined are counted, not judged.",
          "Trusts REF (harness/src/typed.rs, written from docs and the statement; undefined classes in DESIGN.md §4.1). Exists/forall/accumulate/function-call conditions are outside the typed core.",
          "DESIGN.md §6 C01, §4.1"),
+ "C02": ("exploration",
+         "model-based property testing of call histories: API-built rules with generated attribute combinations and histories of execute/focus/pop/clear/reset/enable/flag steps, judged against a model interpreter of the eligibility gate (exact trace); exhaustive small-scope enumeration of attribute assignments for 3 rules",
+         "Every execute of every generated history must produce exactly the firing trace, fired count and active agenda group of the model written from the statement (salience order with insertion order among ties, enabled/date/focus gates, no-loop until reset, one rule per activation group per pass, lock-on-active once per activation). Large rule sets (21-60) expose unstable sorting. Shapes the statement leaves open (pop/clear returning to a locked group, a lock-on-active rule re-activating its own group) are not judged.",
+         "Trusts the 120-line model in harness/src/c02.rs; date boundaries excluded by construction; rules_evaluated not compared.",
+         "DESIGN.md §6 C02"),
  "C03": ("exploration",
          "differential property testing of looping rule sets (generated counters, always-true rules, toggles, chains) against a multi-pass REF interpreter with no-loop, plus fixpoint re-evaluation and a termination watchdog",
          "For every generated program and every max_cycles in 0..=64: the call returns (120 s watchdog in a monitor process), cycle_count <= max_cycles, rules_fired = callbacks, the pass count / firing sequence / final facts equal REF's, and when the engine stops early no eligible rule is true on its own final facts. Both execute_with_callback and execute are driven.",
